@@ -15,7 +15,7 @@ ELEMENT_FORMS = {1: [1, "H", "h"], 6: [6, "C", "c"], 7: [7, "N", "n"], 8: [8, "O
                  9: [9, "F", "f"], 17: [17, "Cl", "CL", "cl"], 35: [35, "Br", "BR", "br"],
                  15: [15, "P"], 16: [16, "S", "s"], 78: [78, "Pt", "PT", "pt"], 26: [26, "Fe", "FE"]}
 BAD_TYPES = ["Xx", 0, 119, None, -1, "", "carbon", 6.5]
-BAD_ROLES = ["formed", "FORMED", 1, None, "x"]
+BAD_ROLES = ["formed", "FORMED", 1, None, "x", 0, "", False]
 ATTR_KEYS = ["charge", "label", "x"]
 ATTR_VALS = [0, 1, -1, "a", "b", 2]
 BATTR_KEYS = ["bond_order", "note"]
@@ -29,7 +29,7 @@ def profile(name, **kw):
         callers=(1, 3), small=False, check_all_every=16, nontarget=True,
         tx=dict(edit=6, query=3, derive_edit=0, relabel=0, twin=0, pair=0, mutant=0,
                 enum=0, enant=0, react=0, persist=0, algebra=0, faults=0, flip=0,
-                isomers=0, symnum=0, build=1),
+                isomers=0, symnum=0, wlpair=0, build=1),
         fault_rate=(0.0, 0.15),
     )
     tx = dict(base["tx"])
@@ -46,13 +46,13 @@ profile("C10", tx=dict(edit=3, query=1, derive_edit=8, relabel=1, react=1, persi
 profile("C11", tx=dict(edit=3, query=2, relabel=8, twin=1, build=1))
 profile("C01", tx=dict(edit=4, query=1, twin=8, relabel=1, derive_edit=1, build=2), max_atoms=(1, 12))
 profile("C03", tx=dict(edit=4, query=2, twin=8, pair=1, build=2), max_atoms=(1, 12))
-profile("C02", tx=dict(edit=4, pair=5, mutant=6, derive_edit=2, build=2), small=True, max_atoms=(2, 7))
-profile("C05", tx=dict(edit=3, enum=8, symnum=2, derive_edit=2, build=2), small=True, max_atoms=(2, 7),
+profile("C02", tx=dict(edit=4, pair=5, mutant=6, derive_edit=2, wlpair=2, build=2), small=True, max_atoms=(2, 8))
+profile("C05", tx=dict(edit=3, enum=8, symnum=2, derive_edit=2, wlpair=2, build=2), small=True, max_atoms=(2, 8),
         callers=(2, 4))
 profile("C06", tx=dict(edit=3, enant=6, derive_edit=2, build=2), small=True, max_atoms=(2, 7),
         classes=("SMG", "SCRG"))
 profile("C08", tx=dict(edit=2, react=8, build=1), classes=("MG", "SMG", "CRG", "SCRG"), max_atoms=(3, 8))
-profile("C15", tx=dict(edit=5, persist=8, query=1, build=2))
+profile("C15", tx=dict(edit=5, persist=8, query=1, relabel=1, build=2))
 profile("C16", tx=dict(edit=3, pair=4, mutant=4, flip=4, isomers=4, build=3), small=True, max_atoms=(2, 7),
         callers=(2, 3))
 profile("C17", tx=dict(edit=4, algebra=8, query=1, build=2))
@@ -417,10 +417,22 @@ class Gen:
                     d = self.atom_desc(m, centre=centre, cls=rng.choice(geom.ATOM_CLASSES)) or \
                         (first[0], (first[1][0], *rng.sample(first[1][1:], len(first[1]) - 1)),
                          self.parity_for(first[0]))
+                    if rng.random() < 0.4:
+                        # another ligand set on this side of the reaction
+                        lig = list(d[1][1:])
+                        j = rng.randrange(len(lig))
+                        others = [a for a in m.sorted_atoms() if a != centre and a not in lig]
+                        lig[j] = rng.choice(others) if others and rng.random() < 0.6 else None
+                        if lig.count(None) <= 2:
+                            d = (d[0], (centre, *lig), d[2])
                 else:
                     at = list(first[1])
                     if rng.random() < 0.5:
                         at[0], at[1] = at[1], at[0]
+                    if rng.random() < 0.3:
+                        j = rng.choice((0, 1, 4, 5))
+                        others = [a for a in m.sorted_atoms() if a not in at]
+                        at[j] = rng.choice(others) if others and rng.random() < 0.6 else None
                     c = rng.choice(geom.BOND_CLASSES)
                     d = (c, tuple(at), self.parity_for(c))
             op[r.lower()] = model.list_desc(d)
@@ -450,6 +462,16 @@ class Gen:
         if pa is not None:
             out.append(dict(k="add_atom", s=s, a=pa, t=bad_t, kw={}))
         out.append(dict(k="remove_atom", s=s, a=aa))
+        # identifiers that descriptors mention without being atoms of the graph
+        ghosts = sorted({x for *_w, d in m.all_descs() for x in d[1] if x is not None and x not in m.atoms})
+        if any(None in d[1] for *_w, d in m.all_descs()) or rng.random() < 0.2:
+            out.append(dict(k="remove_atom", s=s, a=None))
+        if ghosts:
+            g = rng.choice(ghosts)
+            out.append(dict(k="remove_atom", s=s, a=g))
+            out.append(dict(k="set_atom_attr", s=s, a=g, key=rng.choice(ATTR_KEYS), val=1))
+            if pa is not None:
+                out.append(dict(k="add_bond", s=s, a=pa, b=g, kw={}))
         bond_adders = ["add_bond"] + (["add_formed_bond", "add_broken_bond", "add_fleeting_bond"] if m.is_reaction else [])
         for kk in bond_adders:
             out.append(dict(k=kk, s=s, a=aa, b=ab, kw={}))
@@ -873,6 +895,72 @@ class Gen:
         s2 = rng.choice(same) if same and rng.random() < 0.8 else rng.choice([x for x in c if x != s1])
         yield dict(k="probe_pair", s1=s1, s2=s2)
 
+    WL_PAIRS = (
+        # (n atoms, bonds of A, bonds of B): same degree sequence, one element,
+        # colour refinement cannot tell them apart - only the search can
+        (6, [(0, 1), (1, 2), (2, 3), (3, 4), (4, 5), (5, 0)], [(0, 1), (1, 2), (2, 0), (3, 4), (4, 5), (5, 3)]),
+        (7, [(i, (i + 1) % 7) for i in range(7)], [(0, 1), (1, 2), (2, 0), (3, 4), (4, 5), (5, 6), (6, 3)]),
+        (8, [(i, (i + 1) % 8) for i in range(8)], [(0, 1), (1, 2), (2, 3), (3, 0), (4, 5), (5, 6), (6, 7), (7, 4)]),
+        (8, [(i, (i + 1) % 8) for i in range(8)], [(0, 1), (1, 2), (2, 0), (3, 4), (4, 5), (5, 6), (6, 7), (7, 3)]),
+        (6, [(0, 3), (0, 4), (0, 5), (1, 3), (1, 4), (1, 5), (2, 3), (2, 4), (2, 5)],
+            [(0, 1), (1, 2), (2, 0), (3, 4), (4, 5), (5, 3), (0, 3), (1, 4), (2, 5)]),
+        (9, [(i, (i + 1) % 9) for i in range(9)], [(0, 1), (1, 2), (2, 0), (3, 4), (4, 5), (5, 3), (6, 7), (7, 8), (8, 6)]),
+        # decalin vs bicyclopentyl skeletons
+        (10, [(0, 1), (1, 2), (2, 3), (3, 4), (4, 5), (5, 0), (4, 6), (6, 7), (7, 8), (8, 9), (9, 5)],
+             [(0, 1), (1, 2), (2, 3), (3, 4), (4, 0), (0, 5), (5, 6), (6, 7), (7, 8), (8, 9), (9, 5)]),
+        # cube vs twisted cube (3-regular, 8 atoms)
+        (8, [(0, 1), (1, 2), (2, 3), (3, 0), (4, 5), (5, 6), (6, 7), (7, 4), (0, 4), (1, 5), (2, 6), (3, 7)],
+            [(0, 1), (1, 2), (2, 3), (3, 0), (4, 5), (5, 6), (6, 7), (7, 4), (0, 4), (1, 5), (2, 7), (3, 6)]),
+    )
+
+    def tx_wlpair(self):
+        rng = self.rng
+        if len(self.w.slots) + 3 > self.w.max_slots:
+            for s in self.graphs(unlocked=True)[:3]:
+                yield dict(k="drop", s=s)
+        n, ba, bb = rng.choice(self.WL_PAIRS)
+        kind = rng.choice(self.cfg["classes"])
+        z = rng.choice(self.cfg["elements"])
+        ids = list(self.cfg["ids"])
+        while len(ids) < n:
+            ids.append(max(ids) + 1 + rng.randrange(3))
+        slots = []
+        for bonds in (ba, bb):
+            s = self.slot_id()
+            slots.append(s)
+            perm = rng.sample(ids, n)
+            yield dict(k="new", dst=s, cls=kind)
+            order = list(range(n))
+            rng.shuffle(order)
+            for i in order:
+                yield dict(k="add_atom", s=s, a=perm[i], t=z, kw={})
+            bl = list(bonds)
+            rng.shuffle(bl)
+            for x, y in bl:
+                yield dict(k="add_bond", s=s, a=perm[x], b=perm[y], kw={})
+        a, b = slots
+        if self.w.graph(a) is None or self.w.graph(b) is None:
+            return
+        if rng.random() < 0.5:
+            a, b = b, a
+        yield dict(k="probe_pair", s1=a, s2=b)
+        if self.room() and rng.random() < 0.7:
+            e = self.slot_id()
+            yield dict(k="enum_open", g1=a, g2=b, dst=e, stereo=False, changes=False, labels=None)
+            if e in self.w.slots:
+                yield dict(k="gen_drain", g=e, tamper=None)
+                yield dict(k="gen_close", g=e, how="close")
+        if self.room() and rng.random() < 0.5 and self.w.graph(a) is not None:
+            # automorphisms of the more symmetric partner
+            e = self.slot_id()
+            yield dict(k="enum_open", g1=a, g2=a, dst=e, stereo=False, changes=False, labels=None)
+            if e in self.w.slots:
+                yield dict(k="gen_drain", g=e, tamper=None)
+                yield dict(k="gen_close", g=e, how="close")
+        for s in slots:
+            if s in self.w.slots and rng.random() < 0.7 and not self.w.slots[s].locks:
+                yield dict(k="drop", s=s)
+
     def tx_mutant(self):
         rng = self.rng
         c = self.graphs(nonempty=True)
@@ -893,7 +981,7 @@ class Gen:
 
     def tx_enum(self):
         rng = self.rng
-        c = [s for s in self.graphs(nonempty=True) if len(self.w.slots[s].model.atoms) <= 7]
+        c = [s for s in self.graphs(nonempty=True) if len(self.w.slots[s].model.atoms) <= 10]
         if not c or not self.room():
             yield from self.tx_build()
             return
@@ -1125,6 +1213,21 @@ class Gen:
             yield dict(k="drop", s=s)        # loss of the object; durable text survives
         elif alive and rng.random() < 0.5:
             yield self.rand_mutator(s)       # the original moves on
+        if alive and self.w.graph(s) is not None and rng.random() < 0.35 and len(self.w.slots) + 3 <= self.w.max_slots:
+            # persist an isomorphic graph with other identifiers in between
+            m = self.w.slots[s].model
+            tw, tt, td = self.slot_id(), self.slot_id(), self.slot_id()
+            if rng.random() < 0.5 and not self.w.slots[s].locks:
+                yield dict(k="relabel", src=s, dst=None, map=self.rand_mapping(m, total=True), copy=False)
+                tw = s
+            else:
+                yield dict(k="relabel", src=s, dst=tw, map=self.rand_mapping(m, total=True), copy=True)
+            if self.w.graph(tw) is not None:
+                yield dict(k="serialize", src=tw, dst=tt, reencode=None)
+                yield dict(k="deserialize", src=tt, dst=td)
+                yield dict(k="drop", s=tt)
+                if td in self.w.slots and rng.random() < 0.7:
+                    yield dict(k="drop", s=td)
         d = self.slot_id()
         yield dict(k="deserialize", src=t, dst=d)
         if rng.random() < 0.3 and self.room():
@@ -1249,7 +1352,7 @@ class Gen:
             yield dict(k="add_atom", s=s, a=y, t=6, kw={})
             yield dict(k="add_bond", s=s, a=x, b=y, kw={})
             e1 = rng.sample(pool, 2)
-            e2 = rng.sample(pool, 2)
+            e2 = rng.sample(pool, 2) if rng.random() < 0.6 else list(e1)   # XYC=CXY: converges in one round
             subs = ids[2:6]
             for a, z, c in zip(subs, e1 + e2, (x, x, y, y)):
                 yield dict(k="add_atom", s=s, a=a, t=z, kw={})
